@@ -217,6 +217,22 @@ pub fn run(tape: &[u8], ctx: &mut Ctx) {
 				ctx.violation("C04/depth-limit-not-enforced/reader", format!("schema {json} value nests {d} deep, allowed_depth {}: decoded", lim.allowed_depth));
 			}
 		}
+		// the limits hold for every kind of target: typed hints (seq, tuple, tuple struct, map, struct,
+		// option, enum, newtype ...) go through their own arms of the deserializer
+		if d > lim.allowed_depth || l > lim.max_seq_size {
+			let mut ccfg = CapCfg::from_tape(&mut t);
+			// (deserialize_option visits a null without descending, so it does not count that union level:
+			// "nesting" is compared on the paths that descend into every node)
+			ccfg.option_mode = false;
+			let cctx = CapCtx::new(&env, ccfg.clone(), Some(&input));
+			let mut stt = DeserializerState::with_config(SliceRead::new(&input), cfg.clone());
+			let r = cctx.seed(&ms).deserialize(stt.deserializer());
+			ctx.label("target:typed-hints-under-limits");
+			if r.is_ok() {
+				let which = if d > lim.allowed_depth { "depth-limit" } else { "max-seq-size" };
+				ctx.violation(format!("C04/{which}-not-enforced/typed-target"), format!("schema {json} input {}: value nests {d} deep with a collection of {l} elements, allowed_depth {} max_seq_size {}: decoded by the typed capture target ({ccfg:?})", hex(&input), lim.allowed_depth, lim.max_seq_size));
+			}
+		}
 		if l > lim.max_seq_size {
 			tripped.push("seq");
 			if r_slice.is_ok() {
